@@ -10,7 +10,9 @@ from .hist import build, apply_op, rainbow_code
 
 # palette roles (DESIGN 2.3); seed 0 values
 ROLES0 = {'R': '31', 'B': '34', 'G': '32', 'W': '1', 'N': '22', 'U': '4', 'D': '21',
-          'X': '38;5;214', 'T': '48;2;1;2;3', 'Z': '0'}
+          'X': '38;5;214', 'T': '48;2;1;2;3', 'Z': '0',
+          # verbatim settings (documented '[' form): incomplete group, multi-group, invalid, unknown code
+          'p': '[38', 'q': '[32;31', 'x': '[xm', 'u': '[99'}
 FG1 = ['31', '34', '32', '33', '35', '36', '91', '94', '92']
 
 
@@ -165,7 +167,8 @@ def std_gen(task, seed, maxlen=6):
             if task['struct']:
                 ops = ops + [['cat', ['lit', 'z']], ['cat', ['ctor', 'z', R['R']]], ['rcat', ['ctor', 'z', R['R']]],
                              ['center', L + 3, '*', False, True], ['ljust', L + 1, '*', False, True],
-                             ['rjust', L + 1, '*', False, False], ['slice', 1, None], ['slice', 0, -1], ['selfcat']]
+                             ['rjust', L + 1, '*', False, False], ['slice', 1, None], ['slice', 0, -1], ['selfcat'],
+                             ['assign', letters(seed + 3, L + 1)], ['assign', letters(seed + 5, max(L - 1, 0))]]
             cache[L] = ops
         return ops
     return gen
